@@ -45,3 +45,5 @@ vmod!(c05);
 vmod!(c06);
 #[cfg(not(feature = "shuttle"))]
 vmod!(c11);
+#[cfg(not(feature = "shuttle"))]
+vmod!(c04);
